@@ -71,7 +71,7 @@ func (ds *defaultSpreaderPipeline) worker(ctx context.Context, wg *sync.WaitGrou
 			err := ds.spreadBranch(root)
 			ds.Unlock()
 			if err != nil {
-				errc <- err
+				sendErr(ctx, errc, err)
 				return
 			}
 		}
@@ -133,7 +133,7 @@ func (f *formattedSpreaderPipeline[T]) spread(ctx context.Context, w io.Writer, 
 					break BREAK
 				}
 				if err := encode(toFormattedNode(root, f.formattedRoot(root.name))); err != nil {
-					errc <- err
+					sendErr(ctx, errc, err)
 				}
 			}
 		}
@@ -177,12 +177,12 @@ func (cs *colorizeSpreaderPipeline) spread(ctx context.Context, w io.Writer, roo
 						cs.spreadBranch(root),
 						cs.summary()),
 				); err != nil {
-					errc <- err
+					sendErr(ctx, errc, err)
 					return
 				}
 			}
 			if err := bw.Flush(); err != nil {
-				errc <- err
+				sendErr(ctx, errc, err)
 				return
 			}
 		}
